@@ -61,10 +61,21 @@ def gen_base(rng: Any, max_ops: int = 28) -> List[str]:
         if modes[j] == 'later' and rng.random() < 0.8:
             body.extend(rng.choice([[], SYNC, ['dl c2s'], ['dl c2s', 'tick']]))
             body.append(f'grant {j} {int(rng.random() < 0.75)}')
-        if rng.random() < 0.75:
+        r0 = rng.random()
+        if r0 < 0.6:
             # let the open handshake run to completion (open, conf, [env, pty], request, reply)
             for _ in range(rng.choice([2, 3, 4, 4])):
                 body.extend(SYNC)
+        elif r0 < 0.8:
+            # interfere while the channel is still starting up: the other side acts before the requests are answered
+            body.extend(['settle', 'dl c2s', 'settle'])
+            if rng.random() < 0.7:
+                body.extend(['dl s2c', 'settle'])
+            for _ in range(rng.randint(0, 2)):
+                body.append('dl c2s')
+            for _ in range(rng.choice([1, 1, 2])):
+                body.append(f'op s {j} ' + rng.choice(['close', 'close', 'abort', 'eof', 'write', 'exit']))
+            progress()
         else:
             progress()
     # phase 2: activity from both sides
@@ -106,6 +117,82 @@ def gen_base(rng: Any, max_ops: int = 28) -> List[str]:
             body.append(f'lose {rng.choice("cs")} {rng.randrange(2)}')
         progress()
     return lines + body
+
+
+SERVER_EARLY_OPS = [['close'], ['abort'], ['eof', 'close'], ['exit', 'close'], ['write', 'close'],
+                    ['write', 'eof', 'close'], ['write', 'abort'], ['eof'], ['write']]
+
+STARTUP_TEMPLATES = ['close-before-request-seen', 'request-rejected', 'pty-rejected', 'reply-then-close',
+                     'close-then-requests-arrive', 'granted-then-closed', 'close-before-request-seen',
+                     'data-then-close-before-reply', 'client-writes-then-rejected']
+
+
+def startup_scenarios(rng: Any, n: int) -> List[Tuple[str, List[str]]]:
+    """Scripts (header + body, no epilogue) in which the peer's CLOSE reaches a channel that is still in its
+    start-up phase, on either role: the server closes / aborts before or instead of answering the client's
+    pty / exec / shell / subsystem request (what a session closing the channel inside `exec_requested` looks like
+    on the wire), the server rejects the request so that the client's `create()` closes a channel on which no
+    session was started, reply and CLOSE arrive together, a delayed open is granted and closed at once."""
+    out: List[Tuple[str, List[str]]] = []
+    for k in range(n):
+        name = STARTUP_TEMPLATES[k % len(STARTUP_TEMPLATES)]
+        w = rng.choice([1, 2, 4, 8])
+        nenv = rng.choice([0, 0, 1, 2])
+        pty = int(rng.random() < 0.4)
+        kind = rng.choice(['exec', 'shell', 'subsystem'])
+        eofr = int(rng.random() < 0.7)
+        mode, pty_ok, req_ok = 'accept', 1, 1
+        if name in ('request-rejected', 'client-writes-then-rejected'):
+            req_ok = 0
+        elif name == 'pty-rejected':
+            pty, pty_ok = 1, 0
+        elif name == 'granted-then-closed':
+            mode = 'later'
+        lines = [f'reset {w}', f'scfg {mode} {pty_ok} {req_ok} {int(rng.random() < 0.7)} 0',
+                 'scfg accept 1 1 1 0', 'scfg accept 1 1 1 0', 'pfmode refuse', 'pfmode refuse']
+        body = [f'open {nenv} {pty} {kind} {eofr} 0', 'settle', 'dl c2s', 'settle']
+        nreq = nenv + pty + 1                   # packets the client sends after the confirmation (one per await)
+        if rng.random() < 0.5:
+            body.append('wc s 0')
+        if name == 'granted-then-closed':
+            body += ['grant 0 1', 'settle']
+            body += [f'op s 0 {o}' for o in rng.choice(SERVER_EARLY_OPS[:4])]
+            body += ['dl s2c'] * rng.choice([2, 3]) + ['settle']
+        else:
+            body += ['dl s2c', 'settle']          # confirmation: create() goes on and sends its requests
+            if name == 'client-writes-then-rejected':
+                # the client application writes from `connection_made` on, before its request has been answered
+                body += ['op c 0 write'] * rng.choice([1, 2]) + rng.choice([[], ['op c 0 eof']])
+            if name in ('close-before-request-seen', 'data-then-close-before-reply'):
+                ops = rng.choice(SERVER_EARLY_OPS[4:7] if name.startswith('data') else SERVER_EARLY_OPS)
+                body += [f'op s 0 {o}' for o in ops]
+                body += rng.choice([[], ['settle']])
+                for _ in range(len(ops) + 1):
+                    body.append('dl s2c')
+                    if rng.random() < 0.3:
+                        body.append('tick')
+                body += ['settle']
+            elif name == 'close-then-requests-arrive':
+                body += [f'op s 0 {o}' for o in rng.choice(SERVER_EARLY_OPS[:4])]
+                body += ['dl c2s'] * nreq + ['settle'] + ['dl s2c'] * 3 + ['settle']
+            elif name == 'reply-then-close':
+                for _ in range(nenv + pty):
+                    body += ['dl c2s']
+                body += ['settle', 'dl s2c', 'settle'] if pty else ['settle']
+                body += ['dl c2s', 'settle']                 # the exec / shell / subsystem request reaches the server
+                body += [f'op s 0 {o}' for o in rng.choice(SERVER_EARLY_OPS[:7])]
+                body += ['dl s2c'] * rng.choice([2, 3, 4]) if rng.random() < 0.6 else ['dl s2c', 'tick', 'dl s2c', 'dl s2c']
+                body += ['settle']
+            # request-rejected / pty-rejected: nothing but fair delivery -- the client closes by itself
+        if rng.random() < 0.5:
+            body.append('wc c 0')
+        for _ in range(rng.choice([2, 4, 6])):
+            body += SYNC
+        # the connection stays in use afterwards
+        if rng.random() < 0.5:
+            body += [f'open 0 0 exec 1 0'] + SYNC * 4 + [f'op {rng.choice("cs")} 1 close'] + SYNC * 2
+        out.append((name, lines + body))
+    return out
 
 
 def epilogue() -> List[str]:
